@@ -10,4 +10,7 @@ go1.26.8 build -o bin/vcheck ./cmd/vcheck
 W=$(mktemp -d /var/tmp/vcheck-warm-XXXX)
 ./bin/vcheck prepare "$W" client >/dev/null
 rm -rf "$W"
+./bin/vcheck prepare "$W" codecs >/dev/null
+(cd "$W/harness" && CGO_ENABLED=1 go1.26.8 test -race -tags verif -c -o "$W/race.test" ./sim >/dev/null 2>&1 || true)
+rm -rf "$W"
 echo "setup ok"
